@@ -29,6 +29,25 @@ def check_C03(ctx):
         if f.get('bytes') != r['h'].get('bytes'):
             ctx.violate('nondeterministic', 'writing the same object twice gave different bytes: ' + r['case'][:200],
                         {'case': r['case'], 'first': r['hraw'], 'second': o})
+    # the same bytes through every writer the library provides (buffer, pedantic, constexpr, stream, fd, bounded)
+    pool = S.pool
+    sample = [r for r in S.run_enc() if r['h'] and r['h']['st'] == '0' and r['m'] and r['m'].get('typed') == 'true' and 'handle' not in pool.caps[r['tid']]]
+    ctx.rng.shuffle(sample)
+    sample = sample[: (150 if ctx.quick else 3000)]
+    wl = []
+    for r in sample:
+        size = int(r['h']['size'])
+        for k in ('buf', 'ped', 'cx', 'stream', 'fd', 'bbuf', 'bped'):
+            wl.append((r, k, 'encw T%d %s %d %d %s' % (r['tid'], k, size + 3, size, r['input'])))
+    wo = run_harness(pool, [x[2] for x in wl])
+    for (r, k, line), o in zip(wl, wo):
+        if o == 'unsupported':
+            continue
+        ctx.count('library-writer:' + k, line)
+        f = sx.fields(o) if not o.startswith(('CRASH', 'HARNESS', 'OOM', 'EXCEPTION')) else {}
+        if f.get('st') != '0' or f.get('bytes') != r['m']['spec']:
+            ctx.violate('bytes-differ-from-format', 'writer %s: bytes written differ from docs/format.md encoding: %s wrote st=%s %s, format says %s' %
+                        (k, line[:160], f.get('st'), str(f.get('bytes'))[:100], r['m']['spec'][:100]), {'case': line, 'output': o, 'expected': r['m']['spec']})
     report_broken(ctx, broken, 'enc', 'Serializer::Write/GetSize = model enc/tsize')
     return finish_with_proofs(ctx)
 
@@ -93,6 +112,30 @@ def check_C06(ctx):
             if mf.get('st') != f['st'] or (f['st'] == '0' and mf.get('bytes') != f['bytes']):
                 cbroken.append({'case': line, 'hraw': o, 'mraw': mo})
     report_broken(ctx, cbroken, 'capacity', 'buffer writers = model bufw_ops')
+    # remaining capacity: the same value written twice through one writer
+    tw = []
+    for r in rows[: (120 if ctx.quick else 3000)]:
+        size = int(r['h']['size'])
+        n = hexlen(r['h']['bytes'])
+        if size == 0 or size != n:
+            continue
+        for kind in ('buf2', 'ped2'):
+            for cap in sorted({size, size + 1, 2 * size - 1, 2 * size, 2 * size + 3}):
+                tw.append((r, kind, cap, size, 'encw T%d %s %d %d %s' % (r['tid'], kind, cap, cap, r['input'])))
+    two = run_harness(pool, [x[4] for x in tw])
+    for (r, kind, cap, size, line), o in zip(tw, two):
+        if o == 'unsupported':
+            continue
+        ctx.count('write-twice:' + kind, line)
+        if o.startswith(('CRASH', 'HARNESS', 'OOM', 'EXCEPTION')):
+            ctx.violate('crash:encw:' + kind, 'writer %s crashed or stored out of bounds on the second Write: %s -> %s' % (kind, line[:160], o[:200]), {'case': line, 'output': o})
+            continue
+        f = sx.fields(o)
+        want2 = '0' if cap >= 2 * size else '13'
+        wantn = 2 * size if cap >= 2 * size else size
+        if f.get('first') != '0' or f.get('second') != want2 or f.get('n') != str(wantn):
+            ctx.violate('remaining-capacity:' + kind, 'two Writes of a %d-byte value into %d bytes through %s: first=%s second=%s (expected %s), %s bytes in the buffer (expected %d): %s' %
+                        (size, cap, kind, f.get('first'), f.get('second'), want2, f.get('n'), wantn, line[:160]), {'case': line, 'output': o})
     return finish_with_proofs(ctx)
 
 
@@ -124,7 +167,12 @@ def check_C01(ctx):
     proofs_or_violation(ctx, ['Properties_C01.v'])
     S = CodecStreams(ctx, nvals=(None if ctx.quick else 500))
     pool = S.pool
-    broken = corr_enc(ctx, S, lambda r: None)
+    def writable(r):
+        h, m = r['h'], r['m']
+        if m.get('typed') == 'true' and h['st'] != '0':
+            return ('write-fails', 'Write of an encodable value failed with status %s, so it cannot round-trip: %s' % (h['st'], r['case'][:200]))
+        return None
+    broken = corr_enc(ctx, S, writable)
     # decode what was written, with and without a continuation
     dbroken = []
     for suffix in ('', 'ff01'):
@@ -633,6 +681,10 @@ def check_C07(ctx):
         for r in by.get(a, []):
             hx = r['h']['bytes']
             items.append((b, (hx if hx != '-' else '') + '2a', '-', (a, r), None))
+            # the same read into a destination that already holds entries (a reused object): entries the writer
+            # lacked or left empty must come out empty, not keep what was there
+            if ctx.rng.random() < (0.5 if ctx.quick else 1.0):
+                items.append((b, (hx if hx != '-' else '') + '2a', '-', (a, r), nopgen.gen_value(pool.types[b], ctx.rng)))
     drows = S.run_dec(items)
     dbroken = []
     for d in drows:
@@ -1241,6 +1293,19 @@ def check_C18(ctx):
                 ctx.violate('compile-time-hash', 'compile-time hash/selector of name %s is %s, SipHash-2-4 of the name gives %s' % (hx, got, want), {'name_hex': hx, 'got': got, 'want': want})
             elif m != e:
                 ctx.violate('corr:sipname', 'model hash of name %s disagrees: %s vs %s' % (hx, m, e), {'no_failing_input': True, 'model': m, 'impl': e})
+    # tables declared with NOP_TABLE_NS: the hash that actually travels on the wire
+    named = [(i, t) for i, t in enumerate(pool.types) if t[0] == 'tab' and len(t) > 3 and t[3]]
+    nl = ['enc T%d (tab%s)' % (i, ' none' * len(t[2])) for i, t in named]
+    no = run_harness(pool, nl)
+    for (i, t), line, o in zip(named, nl, no):
+        ctx.count('wire-table-hash', line)
+        f = sx.fields(o) if not o.startswith(('CRASH', 'HARNESS', 'OOM', 'EXCEPTION')) else {}
+        want = nopgen.siphash24(t[3].encode() + b'\0', nopgen.TABLE_K0, nopgen.TABLE_K1)
+        bs = list(bytes.fromhex(f.get('bytes', 'b500')))
+        got = read_uint(bs, 1)[0] if bs and bs[0] == 0xb5 else None
+        if f.get('st') != '0' or got != want:
+            ctx.violate('wire-table-hash', 'the table named %r carries hash %s on the wire; SipHash-2-4 of the name under the table keys is %d: %s -> %s' %
+                        (t[3], got, want, line, o[:120]), {'case': line, 'output': o, 'expected_hash': want})
     return finish_with_proofs(ctx)
 
 
